@@ -5,10 +5,11 @@ From V.C07 Require Import Model Spec AModel ASpec.
 Definition resolve (t : table) (s : site) (p : path) (c m : string) : option (string * member) :=
   let flat o := match o with Some (Some r) => Some r | _ => None end in
   match p with
-  | PArrowRead | PArrowWrite | PDynRead | PDynWrite | PThisRead | PThisWrite | PIndexRead | PIndexWrite => flat (find_prop t c m)
-  | PCall | PDynCall | PThisCall => flat (find_meth t c m)
-  | PStaticCall => flat (find_static_meth t c m)
-  | PStaticRead | PStaticWrite => flat (find_static_prop t c m)
+  | PArrowRead | PArrowWrite | PDynRead | PDynWrite | PThisRead | PThisWrite | PIndexRead | PIndexWrite
+  | PUnset | PRefArg | PForeach | PNestedAppend | PThisIndexRead | PThisIndexWrite => flat (find_prop t c m)
+  | PCall | PDynCall | PThisCall | PCallable => flat (find_meth t c m)
+  | PStaticCall | PStaticKwCall => flat (find_static_meth t c m)
+  | PStaticRead | PStaticWrite | PSelfProp => flat (find_static_prop t c m)
   | PParentCall => match s with
                    | InMethod l _ => match parent_of t l with Some q => flat (find_any_meth t q m) | None => None end
                    | Outside => None
@@ -19,7 +20,11 @@ Definition resolve (t : table) (s : site) (p : path) (c m : string) : option (st
    did: allowed?, and for stores whether the value read back afterwards had changed *)
 Record vprobe := { v_site : site; v_path : path; v_cls : string; v_mem : string;
                    v_allowed : bool; v_changed : option bool }.
-(* 1 = model vs implementation (tie); 2 = rule vs implementation (property);
+(* 1 = model vs implementation (tie);
+   2 = the property is violated: the implementation allowed an access the rule forbids ("any other read,
+       write or call raises a catchable error"), or refused a public member;
+   6 = informational, NOT a violation: the implementation refused an access to a non-public member that
+       the rule would permit ("usable only from" does not force the access to succeed);
    3 = a denied store changed the object; 4 = an allowed store did not take effect; 9 = unresolved member *)
 Definition check_v (t : table) (q : vprobe) : list nat :=
   match resolve t (v_site q) (v_path q) (v_cls q) (v_mem q) with
@@ -28,7 +33,9 @@ Definition check_v (t : table) (q : vprobe) : list nat :=
       let md := match decide t (v_site q) (v_path q) (v_cls q) (v_mem q) with Allow => true | _ => false end in
       let sp := visible t (v_site q) d (mb_mod x) in
       (if Bool.eqb md (v_allowed q) then [] else [1%nat]) ++
-      (if Bool.eqb sp (v_allowed q) then [] else [2%nat]) ++
+      (if v_allowed q && negb sp then [2%nat]
+       else if negb (v_allowed q) && sp then (match mb_mod x with Public => [2%nat] | _ => [6%nat] end)
+       else []) ++
       match v_changed q with
       | None => []
       | Some ch => (if negb (v_allowed q) && ch then [3%nat] else []) ++
@@ -54,7 +61,8 @@ Fixpoint vall (t : table) (k : nat) (l : list vprobe) : list (nat * list nat) :=
    class A {} class B extends A {} class C {} interface I {} class D implements I {} *)
 Definition fixture_sub (c n : string) : bool :=
   String.eqb c n || (String.eqb c "B" && String.eqb n "A") || (String.eqb c "D" && String.eqb n "I").
-Inductive boundary := BProp | BParam | BReturn.
+Inductive boundary := BProp | BParam | BReturn | BReturnMethod | BPropStatic.
+Definition fixture_tostring (c : string) : bool := String.eqb c "S".   (* class S { function __toString() } *)
 Record tprobe := { t_b : boundary; t_ty : ty; t_val : value; t_accepted : bool }.
 (* 1 = model vs implementation; 2 = denotation vs implementation *)
 Definition check_t (q : tprobe) : list nat :=
@@ -62,6 +70,8 @@ Definition check_t (q : tprobe) : list nat :=
             | BProp => prop_store_accepts fixture_sub (Some (t_ty q)) (t_val q)
             | BParam => param_accepts fixture_sub (Some (t_ty q)) (t_val q)
             | BReturn => return_accepts fixture_sub (Some (t_ty q)) (t_val q)
+            | BReturnMethod => method_return_accepts fixture_sub fixture_tostring (Some (t_ty q)) (t_val q)
+            | BPropStatic => static_prop_store_accepts (Some (t_ty q)) (t_val q)
             end in
   let sp := type_is fixture_sub (t_ty q) (t_val q) in    (* = denote, by type_is_denote *)
   (if Bool.eqb md (t_accepted q) then [] else [1%nat]) ++ (if Bool.eqb sp (t_accepted q) then [] else [2%nat]).
